@@ -39,7 +39,7 @@ CHECKS = {
    note="Trusted: Go race runtime; instrumentation of range-over-map headers and sync calls; raw syscalls stay un-instrumented (canary checked in every process). sync.Pool edges inside regexp can mask a conflicting pair in one execution (measured, DESIGN 10.2), so a data-race class gets a few fresh-process attempts of the identical schedule. Sampled schedules, not exhaustive.",
    tech="deterministic simulation: seeded baton scheduler over real goroutines + race runtime as exact per-execution oracle, controlled map order, differential reference"),
  "C17": dict(level="exploration", ref="DESIGN.md §3.4",
-   text="Histories of builder steps over 1-3 policy instances (chains split into separately scheduled steps, builders reused for a second scope call, rule piles, same-slot collisions, toggled switches) are interleaved (optionally with Sanitize calls between steps), permuted within commutation classes, case-mutated and reduced by a small executable model of the switch-like options; each resulting policy is compared behaviourally (Sanitize on ~550 probe inputs derived from the rule set) with the same rule set built alone in canonical order from lower-case names; instances are re-fingerprinted after other instances and fresh shipped policies are extended, and sampled plans are re-executed alone in a pristine process.",
+   text="Histories of builder steps over 1-3 policy instances (chains split into separately scheduled steps, builders reused for a second scope call, rule piles, same-slot collisions, toggled switches) are interleaved (optionally with Sanitize calls between steps), permuted within commutation classes, case-mutated and reduced by a small executable model of the switch-like options; each resulting policy is compared behaviourally (Sanitize on ~550 probe inputs derived from the rule set) with the same rule set built alone in canonical order from lower-case names; instances are re-fingerprinted after other instances and fresh shipped policies are extended, and sampled plans are re-executed alone in a pristine process. Found and led to the repair of a genuine defect (registration lost by AllowURLSchemesMatching on a zero-value Policy, /repo e017f61).",
    note="Trusted: the small switch model (write sets from doc comments); behavioural probes only see differences the probe inputs exercise.",
    tech="deterministic simulation: seeded interleaving/permutation of builder-call histories, refinement against canonical build"),
 }
